@@ -456,6 +456,11 @@ func Run(bin, workDir string, jobs []Job, cpuSec int, extraEnv ...string) (*RunR
 		if len(res.Stderr) < 100000 {
 			res.Stderr += fmt.Sprintf("--- runner died in job %d: %v\n%s\n", last, werr, tailStr(stderr.String(), 20000))
 		}
+		if len(res.CPUExceeded) >= 3 {
+			// three separate inputs already ran into the CPU limit: the verdict is clear, do not burn
+			// a further limit's worth of CPU on every remaining input
+			break
+		}
 		var rest []Job
 		for _, j := range remaining {
 			if res.Traces[j.ID] == nil && j.ID != last {
